@@ -740,11 +740,12 @@ def more_c19():
 
 def more_c20():
     return _cache_index() + [
-        V("stored-branch-tested-by-truthiness", CD, "IndexedCache.retrieve", "            if assignment[key] not in cache:\n", "            if not cache.get(assignment[key]):\n", rule="NONE-TEST"),
-        V("stored-branch-read-with-get", CD, "IndexedCache.retrieve", "            if assignment[key] not in cache:\n",
-          "            next_cache = cache.get(assignment[key])\n            if next_cache is None:\n", rule="NONE-TEST"),
-        V("wildcard-tested-by-truthiness", CD, "IndexedCache.retrieve", "            if All in cache:\n                yield from self._yield_result(assignment, cache[All], key_idx, result)\n            else:\n                # Explore",
-          "            wildcard = cache.get(All)\n            if wildcard:\n                yield from self._yield_result(assignment, wildcard, key_idx, result)\n            else:\n                # Explore", rule="NONE-TEST"),
+        V("stored-branch-tested-by-truthiness", CD, "IndexedCache.retrieve", "            if assignment[key] in cache:\n                branches.append((All, cache[assignment[key]]))\n",
+          "            if cache.get(assignment[key]):\n                branches.append((All, cache[assignment[key]]))\n", rule="NONE-TEST"),
+        V("stored-branch-read-with-get", CD, "IndexedCache.retrieve", "            if assignment[key] in cache:\n                branches.append((All, cache[assignment[key]]))\n",
+          "            stored = cache.get(assignment[key])\n            if stored is not None:\n                branches.append((All, stored))\n", rule="NONE-TEST"),
+        V("wildcard-tested-by-truthiness", CD, "IndexedCache.retrieve", "            if All in cache:\n                branches.append((All, cache[All]))\n",
+          "            wildcard = cache.get(All)\n            if wildcard:\n                branches.append((All, wildcard))\n", rule="NONE-TEST"),
         V("leaf-kept-on-reinsert", CD, "IndexedCache.insert", "                cache[v] = output", "                cache.setdefault(v, output)", rule="LEAF-OVERWRITE"),
         V("twin-intermediate-level-by-membership", CD, "IndexedCache.insert", "                next_cache = cache.get(v)\n                if next_cache is None:\n                    next_cache = CacheDict()\n                    cache[v] = next_cache\n                cache = next_cache",
           "                if v not in cache:\n                    cache[v] = CacheDict()\n                cache = cache[v]", kind="twin"),
@@ -1226,10 +1227,10 @@ for _pid, _vs in _twins6().items():
 HD = "hashed_data"
 _CLEAR_OLD = ('        clear_cached_requirements = getattr(type(self)._required_variables_from_child_, "cache_clear", None)\n'
               '        if clear_cached_requirements is not None:\n            clear_cached_requirements()')
-_UNBOUND_OLD = ("            if All in cache:\n                yield from self._yield_result(assignment, cache[All], key_idx, result)\n            else:\n"
-                "                # Explore all branches at this level, copying only the minimal delta\n"
-                "                for cache_key, cache_val in cache.items():\n                    local_result = copy(result)\n"
-                "                    local_result[key] = cache_key\n                    yield from self._yield_result(assignment, cache_val, key_idx, local_result)")
+_UNBOUND_OLD = ("        elif All in cache:\n"
+                "            # an entry that leaves this key open was stored by an evaluation for which the row held whatever the key's value:\n"
+                "            # it stands for the entries that bind the key as well.\n"
+                "            branches = [(All, cache[All])]\n        else:\n            branches = list(cache.items())\n")
 
 
 def _batch7() -> Dict[str, List[V]]:
@@ -1252,13 +1253,10 @@ def _batch7() -> Dict[str, List[V]]:
     ]
     one_entry = [
         V("open-key-follows-wildcard-and-concrete", CD, "IndexedCache.retrieve", _UNBOUND_OLD,
-          "            for cache_key, cache_val in cache.items():\n                local_result = copy(result)\n                if cache_key is not All:\n"
-          "                    local_result[key] = cache_key\n                yield from self._yield_result(assignment, cache_val, key_idx, local_result)",
+          "        else:\n            branches = list(cache.items())\n",
           rule="REPLAY-ONE-ENTRY"),
         V("twin-open-key-test-negated", CD, "IndexedCache.retrieve", _UNBOUND_OLD,
-          "            if All not in cache:\n                for cache_key, cache_val in cache.items():\n                    local_result = copy(result)\n"
-          "                    local_result[key] = cache_key\n                    yield from self._yield_result(assignment, cache_val, key_idx, local_result)\n"
-          "            else:\n                yield from self._yield_result(assignment, cache[All], key_idx, result)", kind="twin"),
+          "        elif All not in cache:\n            branches = list(cache.items())\n        else:\n            branches = [(All, cache[All])]\n", kind="twin"),
     ]
     set_alg = [
         V("union-as-symmetric-difference", HD, "HashedIterable.union", "self.values.keys() | other.values.keys()", "self.values.keys() ^ other.values.keys()", rule="SET-ALGEBRA"),
@@ -1295,7 +1293,8 @@ def _batch7() -> Dict[str, List[V]]:
           "current_set = {frozenset(d.items()) for d in current}\n                self.solution_set = [d for d in self.solution_set if frozenset(d.items()) in current_set]", kind="twin"),
     ]
     trie = [
-        V("inner-level-as-plain-dict", CD, "IndexedCache.insert", "                    next_cache = CacheDict()", "                    next_cache = {}", rule="TRIE-NODE-TYPE"),
+        # behaviour-preserving since 584a4cd: the reader finds the outputs by depth, it no longer inspects what is stored
+        V("twin-inner-level-as-plain-dict", CD, "IndexedCache.insert", "                    next_cache = CacheDict()", "                    next_cache = {}", kind="twin"),
     ]
     carries = [
         V("alternative-right-without-incoming", S, "ElseIf._evaluate__", "                any_left = True\n                left_value.update(sources)\n", "                any_left = True\n", rule="BIND-THREAD"),
@@ -1453,8 +1452,11 @@ def _batch9() -> Dict[str, List[V]]:
     ]
     index = [
         V("miss-does-not-fall-back-to-the-wildcard", CD, "IndexedCache.retrieve",
-          "                if All in cache:\n                    yield from self._yield_result(assignment, cache[All], key_idx, result)\n                else:\n                    self.search_count += 1\n                return",
-          "                self.search_count += 1\n                return", rule="RETRIEVE-MISS-WILDCARD"),
+          "            if All in cache:\n                branches.append((All, cache[All]))\n            if not branches:",
+          "            if not branches:", rule="RETRIEVE-MISS-WILDCARD"),
+        V("open-entry-followed-only-on-a-miss", CD, "IndexedCache.retrieve",
+          "            if All in cache:\n                branches.append((All, cache[All]))\n            if not branches:",
+          "            if not branches and All in cache:\n                branches.append((All, cache[All]))\n            if not branches:", rule="RETRIEVE-ALL-BRANCHES"),
         V("coverage-record-is-the-callers-dict", CD, "IndexedCache.insert", "        seen_assignment = dict(assignment)\n        self.seen_set.add(seen_assignment)", "        self.seen_set.add(assignment)", rule="STORE-NO-ALIAS"),
         V("twin-coverage-record-copied-inline", CD, "IndexedCache.insert", "        seen_assignment = dict(assignment)\n        self.seen_set.add(seen_assignment)", "        self.seen_set.add(dict(assignment))", kind="twin"),
         V("falsy-key-value-filed-under-the-wildcard", CD, "IndexedCache.insert", "v = assignment.get(k, All)", "v = assignment.get(k) or All", rule="INSERT-RETRIEVABLE"),
